@@ -96,15 +96,18 @@ PROPS = {
     ),
     "C07": dict(
         title="Ed25519/Ed448 verification equals the strict cofactored RFC 8032 predicate",
-        verus=[("ed25519_verify", None, "quick")], kani=[],
+        verus=[("ed25519_verify", None, "quick"), ("ed25519_sign", None, "quick"), ("ed448_verify", None, "quick"), ("ed448_sign", None, "quick")], kani=[],
         cases=["ed25519_sign", "ed25519_verify", "ed448_sign", "ed448_verify"],
-        level_text="Ed25519 PublicKey::verify_inner and verify_raw / verify_ctx / verify_ph are proved by Verus, for every key, signature string, context and message, to return exactly the RFC 8032 5.1.7 predicate: length 64, R = first 32 bytes strictly decodable, S = little-endian last 32 bytes below L, k = SHA-512(dom2(F, C) || R || A || M) mod L with dom2 empty for the pure variant and 'SigEd25519 no Ed25519 collisions' || F || len(C) || C otherwise (F = 0 ctx, 1 ph), and the cofactored equation on (A, R, S, k). This is a glue-level statement: SHA-512, the strict point decoder, the scalar decoders and the cofactored-equation helper are declared dependencies (assumed contracts over uninterpreted functions).",
-        level_note="Declared (assumed) dependencies: Sha512 new/update/finalize (update's append property is proved on the real struct in unit sha2_update, C17), Point::decode == RFC 8032 5.1.3 strict decoding, Scalar::decode32 / decode_reduce, Point::verify_helper_vartime == [8]([S]B - R - [k]A) = neutral. Signing and Ed448: stand-in only (until their units are registered).",
+        level_text="Ed25519 PublicKey::verify_inner and verify_raw / verify_ctx / verify_ph are proved by Verus, for every key, signature string, context and message, to return exactly the RFC 8032 5.1.7 predicate: length 64, R = first 32 bytes strictly decodable, S = little-endian last 32 bytes below L, k = SHA-512(dom2(F, C) || R || A || M) mod L with dom2 empty for the pure variant and 'SigEd25519 no Ed25519 collisions' || F || len(C) || C otherwise (F = 0 ctx, 1 ph), and the cofactored equation on (A, R, S, k). Ed448 verify_inner / verify_raw / verify_ctx / verify_ph likewise against RFC 8032 5.2.7 (length 114, 57-byte R and S, last byte of S zero and S < L, SHAKE256 with dom4, 114-byte challenge). Signing (both curves): PrivateKey::from_seed (hash, pruning of the scalar half, prefix half, public key = ENC([s]B)), sign_inner and sign_raw / sign_ctx / sign_ph return exactly the deterministic RFC 8032 5.1.6 / 5.2.6 signature ENC([r]B) || LE((r + k*s) mod L) with r and k derived from the prescribed hash inputs in the prescribed order; PublicKey::decode / from_point keep point and encoding consistent; and (specification-level lemma over two declared group facts) every signature so produced satisfies the verification predicate for the key built from the same seed. These are glue-level statements: SHA-512 / SHAKE256, the strict point decoder, the scalar decoders and the cofactored-equation helper are declared dependencies (assumed contracts over uninterpreted functions).",
+        level_note="Declared (assumed) dependencies: Sha512 new/update/finalize (update's append property is proved on the real struct in unit sha2_update, C17), Point::decode == RFC 8032 5.1.3 strict decoding, Scalar::decode32 / decode_reduce, Point::verify_helper_vartime == [8]([S]B - R - [k]A) = neutral. ",
         assumptions=["Sha512::new/update/finalize compute SHA-512 of the concatenation of the update arguments (declared; `impl AsRef<[u8]>` restated as trait ByteSrc for &[u8] and &[u8; N])",
                      "ed25519 Point::decode(buf) is the strict RFC 8032 5.1.3 decoder (uninterpreted pt_dec); property C06 covers it at stand-in level",
                      "ModInt256::decode32: status all-ones iff 32 bytes and little-endian value < modulus, value preserved; decode_reduce: value == LE(buf) mod modulus (declared; C05 stand-in for ModInt256)",
-                     "Point::verify_helper_vartime(A; R, s, k) returns whether [8]([s]B - R - [k]A) is the neutral (declared, uninterpreted cof_eq; C10 stand-in covers it against a reference)"],
-        not_reached=["sign_inner, PrivateKey::from_seed", "ed448 verify / sign", "verify_helper_vartime internals (Lagrange split, half-width combination)"],
+                     "Point::verify_helper_vartime(A; R, s, k) returns whether [8]([s]B - R - [k]A) is the neutral (declared, uninterpreted cof_eq; C10 stand-in covers it against a reference)",
+                     "Point::mulgen / Point::encode compute ENC([x]B) (uninterpreted mulgen_enc, pt_enc); scalar +, *, encode, decode_reduce are the ring operations mod L on the represented integer (declared); SHAKE256 new / inject / flip_extract_reset and Sha512::finalize_reset (declared; the sponge and SHA-2 streaming behaviour is proved in units sha3_sponge / sha2_update / sha2_digest, C17)",
+                     "declared group facts used by the 'own signatures verify' lemma only: B has order L (mulgen_enc(x) == mulgen_enc(x mod L)), ENC([x]B) is canonical and decodes to a point with that encoding, and the cofactored equation holds for A = [s]B, R = [r]B, S = (r + k*s) mod L",
+                     "ed448 Scalar (macro define_gfgen!) struct, ENC_LEN = 56 and its +, * impls are restated by hand (the macro text names $typename)"],
+        not_reached=["verify_helper_vartime internals (Lagrange split, half-width combination), Point::mulgen, point codecs", "PrivateKey::decode"],
     ),
     "C08": dict(
         title="ECDSA (P-256, secp256k1): standard verification, documented nonce derivation",
